@@ -8,16 +8,16 @@ import (
 // C07 (pipeline part): searching a file equals searching its bytes in memory.
 
 var c06Programs = []string{
-	"replace all 'a' with 'xyz'",         // longer
-	"replace all 'ab' with 'x'",          // shorter
-	"replace all 'a' with ''",            // empty replacement... (an empty with item)
-	"replace all any with 'q'",           // adjacent matches
+	"replace all 'a' with 'xyz'", // longer
+	"replace all 'ab' with 'x'",  // shorter
+	"replace all 'a' with ''",    // empty replacement... (an empty with item)
+	"replace all any with 'q'",   // adjacent matches
 	"replace all at least 1 'a' with '<' value '>'",
 	"replace all 'a' = x 'b' with x x",
 	"replace all digit with matchNumber '.'",
 	"replace top 1 'a' with 'b'",
 	"replace skip 1 'a' with 'bb'",
-	"replace all 'zz' with 'y'",          // usually zero matches
+	"replace all 'zz' with 'y'", // usually zero matches
 	"replace all line start any with '#'",
 	"find all 'a'",
 	"find all any",
@@ -135,7 +135,21 @@ func VerifC07Run(prog int, T int, ascii int, twin int) {
 	defer vfsDone()
 	vfsWrite("f", content)
 	inMem := v.Run(content)
-	fromFile := v.RunFiles([]string{"f"}, engine.NOTHING, false)
+	// the same file may be named twice, and the run may also write <file>.vored (mode NEW): neither changes
+	// what is found
+	files := []string{"f"}
+	// (for several commands the order of the results across files is not something the property fixes)
+	if prog < c07FirstMulti && vBool("file listed twice") {
+		files = []string{"f", "f"}
+		inMem = append(inMem, v.Run(content)...)
+	}
+	mode := engine.NOTHING
+	if vBool("mode NEW") {
+		mode = engine.NEW
+	}
+	vNote("mode", mode.String())
+	vNoteInt("files", len(files))
+	fromFile := v.RunFiles(files, mode, false)
 	vReach("ran")
 	if twin != 0 {
 		vFail("TWIN reached the comparison")
@@ -174,6 +188,156 @@ var c07Programs = []string{
 	"find all 'a'", "find all any", "find all at least 1 'a' 'b'", "find all line start any", "find all any line end", "find all word start letter", "find all letter word end",
 	"find all 'a' file end", "find all file start 'a'", "find all at least 1 any fewest 'b'", "find all (any = x) x", "find all whole line", "find all not in 'a', 'b'",
 	"replace all 'a' with 'bb'", "find all @/a+b?/", "find last 1 any", "find all maybe 'a' 'b' or 'c'", "find all whole file", "find all whole word",
+	// several commands over the same file, in every order of find and replace
+	"replace all 'a' with 'b' find all any", "find all 'a' replace all any with 'c'", "replace all 'a' with 'bb' replace all 'b' with ''", "find all 'a' find all 'b' find all any",
+	"replace all 'zz' with 'y' find all 'a'",
 }
 
+const c07FirstMulti = 19
+
 func VerifC07RunCount() int { return len(c07Programs) }
+
+// ---- long reads and large files (through the public API only) ----------------------------------------
+
+func c07Letters(n int, salt int) string {
+	b := make([]byte, n)
+	for i := range b {
+		b[i] = byte('a' + (i*7+i/26+salt)%26)
+	}
+	return string(b)
+}
+
+var c07LongExtra = []int{511, 512, 513, 1023, 1024, 1025, 2047, 2048, 2049, 4095, 4096, 4097, 5000, 8193}
+
+// VerifC07Long: one read of n bytes issued by the engine (a literal of n letters, or a back-reference to a
+// capture of n letters), n symbolic: every length in 1..N and the lengths around the powers of two up to
+// twice the read buffer. The file also holds 0..2 bytes in front (symbolic). RunFiles must report what Run reports.
+func VerifC07Long(kind int, N int) {
+	extra := c07LongExtra
+	if kind == 1 {
+		// a capture of n bytes is built by n loop iterations, each saving a state that holds the text matched
+		// so far: quadratic in n for the executor, so the large lengths are left to the literal
+		extra = []int{127, 128, 129, 255, 256, 257, 511, 512, 513}
+	}
+	sel := vPick("length", N+len(extra))
+	n := sel + 1
+	if sel >= N {
+		n = extra[sel-N]
+	}
+	leads := []int{0, 1, 2}
+	lead := leads[vPick("lead", len(leads))]
+	x := c07Letters(n, 3)
+	pad := ""
+	for i := 0; i < lead; i++ {
+		pad += " "
+	}
+	src, content := "", ""
+	switch kind {
+	case 0:
+		src = "find all '" + x + "'"
+		// (the engine reads n bytes at every start position: the text is kept short for the large n)
+		content = pad + x + "#"
+		if n <= 64 {
+			content = pad + "> " + x + " <" + x[:n/2] + "#" + x
+		}
+	case 1:
+		src = "find all ':' (at least 1 letter) = field '=' field"
+		content = pad + "id:" + x + "=" + x + ";\n" + ":" + x + "=" + c07Letters(n, 4) + ";"
+	}
+	vNote("source", "one engine read of n bytes: "+[]string{"literal of n letters", "back-reference to a capture of n letters"}[kind])
+	vNoteInt("n", n)
+	vNoteInt("bytes in front", lead)
+	v, err := Compile(src)
+	if err != nil {
+		vFail("harness: program does not compile")
+	}
+	vfsInit()
+	defer vfsDone()
+	vfsWrite("f", content)
+	inMem := v.Run(content)
+	fromFile := v.RunFiles([]string{"f"}, engine.NOTHING, false)
+	if len(inMem) == 0 {
+		vFail("harness: the long text has no match in memory")
+	}
+	if len(inMem) != len(fromFile) {
+		vNoteInt("matches in memory", len(inMem))
+		vNoteInt("matches in the file", len(fromFile))
+		vFail("searching the file finds a different number of matches than searching its bytes")
+	}
+	for i := range inMem {
+		a, b := inMem[i], fromFile[i]
+		if a.Offset.Start != b.Offset.Start || a.Offset.End != b.Offset.End || a.Value != b.Value || a.MatchNumber != b.MatchNumber {
+			vFail("a match found in the file differs from the match found in memory")
+		}
+	}
+}
+
+var c06Gaps = []int{0, 1, 2047, 2048, 2049, 4095, 4096, 4097}
+
+// VerifC06Large: files larger than the read buffer. The content is  a^g1 b a^g2 [b a^g3]  with the gap
+// lengths symbolic among the classes around 2048 and 4096 (half and whole read buffer), the replacement
+// shorter or longer than the match, mode NEW or OVERWRITE: the written text is the exact splice.
+func VerifC06Large(modeSel int, repl int) {
+	g1 := c06Gaps[vPick("gap1", len(c06Gaps))]
+	g2 := c06Gaps[vPick("gap2", len(c06Gaps))]
+	third := vBool("third gap of 2049")
+	rs := []string{"", "cc"}
+	src := "replace all 'b' with '" + rs[repl] + "'"
+	run := func(n int) string {
+		b := make([]byte, n)
+		for i := range b {
+			b[i] = 'a'
+		}
+		return string(b)
+	}
+	content := run(g1) + "b" + run(g2)
+	expected := run(g1) + rs[repl] + run(g2)
+	if third {
+		content += "b" + run(2049)
+		expected += rs[repl] + run(2049)
+	}
+	modes := []engine.ReplaceMode{engine.NEW, engine.OVERWRITE}
+	mode := modes[modeSel]
+	vNote("source", src)
+	vNote("mode", mode.String())
+	vNoteInt("gap1", g1)
+	vNoteInt("gap2", g2)
+	vNoteInt("size", len(content))
+	v, err := Compile(src)
+	if err != nil {
+		vFail("harness: program does not compile")
+	}
+	vfsInit()
+	defer vfsDone()
+	vfsWrite("f", content)
+	ms := v.RunFiles([]string{"f"}, mode, false)
+	want := 1
+	if third {
+		want = 2
+	}
+	if len(ms) != want {
+		vFail("harness: unexpected number of matches in the large file")
+	}
+	fNow, _ := vfsRead("f")
+	vNow, vOk := vfsRead("f.vored")
+	switch mode {
+	case engine.NEW:
+		if fNow != content {
+			vFail("mode NEW modified the searched file")
+		}
+		if !vOk || vNow != expected {
+			vNoteInt("length written", len(vNow))
+			vNoteInt("length expected", len(expected))
+			vFail("mode NEW: <file>.vored is not the exact splice")
+		}
+	case engine.OVERWRITE:
+		if fNow != expected {
+			vNoteInt("length written", len(fNow))
+			vNoteInt("length expected", len(expected))
+			vFail("mode OVERWRITE: the searched file is not the exact splice")
+		}
+		if vOk {
+			vFail("mode OVERWRITE touched another file")
+		}
+	}
+}
